@@ -15,7 +15,7 @@ table = '| Seeded change | Breaks | What was changed | Needs | Caught by | Stren
 p = os.path.join(ROOT, 'DESIGN.md')
 s = open(p).read()
 if '<!-- SEEDED-TABLE-BEGIN -->' in s:
-    s = re.sub(r'<!-- SEEDED-TABLE-BEGIN -->.*<!-- SEEDED-TABLE-END -->', '<!-- SEEDED-TABLE-BEGIN -->\n' + table + '<!-- SEEDED-TABLE-END -->', s, flags=re.S)
+    s = re.sub(r'<!-- SEEDED-TABLE-BEGIN -->.*<!-- SEEDED-TABLE-END -->', lambda _m: '<!-- SEEDED-TABLE-BEGIN -->\n' + table + '<!-- SEEDED-TABLE-END -->', s, flags=re.S)
 else:
     # first use: replace the hand-written table
     start = s.index('| Seeded change | Breaks |')
